@@ -446,7 +446,46 @@ def shrink_case(component, ops, same_class, budget=150, every_line=False):
 # ------------------------------------------------------------------------------------------
 # Verdict + evidence
 
+def cleanup_leftovers():
+    """files of harness processes that no longer run (cases that end in a modelled panic forget their objects):
+    every harness uses a config prefix `v<letters><pid>…`; empty node directories older than a few minutes"""
+    n = 0
+    for d in ["/dev/shm", "/tmp/iceoryx2/nodes", "/tmp/iceoryx2/services"]:
+        try:
+            names = os.listdir(d)
+        except OSError:
+            continue
+        for fn in names:
+            m = re.match(r"v[a-z]{1,4}(\d+)", fn)
+            if m and not os.path.exists(f"/proc/{m.group(1)}"):
+                try:
+                    pth = os.path.join(d, fn)
+                    if os.path.isdir(pth):
+                        shutil.rmtree(pth, ignore_errors=True)
+                    else:
+                        os.unlink(pth)
+                    n += 1
+                except OSError:
+                    pass
+    try:
+        now = time.time()
+        for fn in os.listdir("/tmp/iceoryx2/nodes"):
+            pth = os.path.join("/tmp/iceoryx2/nodes", fn)
+            if fn.isdigit() and os.path.isdir(pth) and now - os.path.getmtime(pth) > 300:
+                try:
+                    os.rmdir(pth); n += 1
+                except OSError:
+                    pass
+    except OSError:
+        pass
+    return n
+
+
 def finish(ctx, level="proof", rule="", checker_cmd="", extra_assumptions=()):
+    try:
+        ctx.extra["leftover_files_removed"] = cleanup_leftovers()
+    except Exception:
+        pass
     proofs_ok = not ctx.proof_errors and len(ctx.discharged) == len(ctx.obligations) and ctx.obligations
     if not proofs_ok and not [v for v in ctx.violations if not v["nfi"]]:
         # a proof obligation broke and no failing input was found by the search
